@@ -21,8 +21,9 @@ vars == <<d, o, r, ph>>
 
 Years == {1700, 1899, 1900, 2000, 2023, 2024, 2999, 3000}
 DaysG == {1, 28, 29, 30, 31}
-TimesQ == {<<0, 0, 0, 0>>, <<23, 59, 59, 999>>, <<12, 34, 56, 789>>}
-Times == IF Tier = "quick" THEN TimesQ ELSE TimesQ \cup {<<0, 0, 0, 1>>, <<23, 59, 59, 0>>}
+T0 == <<12, 34, 56, 789>>
+TimesQ == {T0, <<0, 0, 0, 0>>, <<23, 59, 59, 999>>}
+Times == IF Tier = "quick" THEN TimesQ ELSE TimesQ \cup {<<0, 0, 0, 1>>, <<23, 59, 59, 0>>, <<0, 59, 0, 999>>}
 
 GridDates == {t \in {<<y, m, dd, tm[1], tm[2], tm[3], tm[4]>> :
                         y \in Years, m \in 1..12, dd \in DaysG, tm \in Times} : InRange(t)}
@@ -40,10 +41,17 @@ OffMinutes == One(5, PM({1, 59, 60, 61, 1439, 1440, 1441}))
 OffSeconds == One(6, PM({1, 59, 60, 61, 3599, 3600, 3601, 86399, 86400, 86401, 31622400}))
 OffMs      == One(7, PM({1, 211, 212, 999, 1000, 1001, 59999, 60000, 60001, 3599999, 3600000, 3600001,
                          86399999, 86400000, 86400001, 2000000000}))
-OffCombo   == {<<y, m, dd, h, 0, s, ms>> : y \in {-1, 0, 1}, m \in {-13, -1, 0, 1, 13},
-                  dd \in {-31, 0, 1, 31}, h \in {-25, 0, 25}, s \in {0, -61}, ms \in {-1, 0, 1000}}
-Offsets == OffYears \cup OffMonths \cup OffDays \cup OffHours \cup OffMinutes \cup OffSeconds
-           \cup OffMs \cup OffCombo
+OffCombo   == IF Tier = "quick"
+              THEN {<<y, m, dd, h, 0, s, ms>> : y \in {0, 1}, m \in {-13, 1}, dd \in {-31, 31},
+                        h \in {-25, 25}, s \in {0, -61}, ms \in {-1, 1000}}
+              ELSE {<<y, m, dd, h, mi, s, ms>> : y \in {-1, 0, 1}, m \in {-13, -1, 0, 1, 13},
+                        dd \in {-31, 0, 1, 31}, h \in {-25, 0, 25}, mi \in {0, 61}, s \in {0, -61}, ms \in {-1, 0, 1000}}
+\* offsets of years/months/days alone never touch the time of day: they are
+\* combined with one time of day (T0) only; the others with every time of the grid
+DateOffsets == OffYears \cup OffMonths \cup OffDays
+TimeOffsets == OffHours \cup OffMinutes \cup OffSeconds \cup OffMs \cup OffCombo
+AllOffsets == DateOffsets \cup TimeOffsets
+OffsetsFor(t) == IF SubSeq(t, 4, 7) = T0 THEN AllOffsets ELSE TimeOffsets
 
 ----------------------------------------------------------------------------
 (* deviations (anti-vacuity): plausible wrong calendars *)
@@ -81,7 +89,7 @@ Zero == <<0, 0, 0, 0, 0, 0, 0>>
 Init == d \in GridDates /\ o = Zero /\ r = d /\ ph = 0
 Next == /\ ph = 0
         /\ ph' = 1
-        /\ o' \in Offsets
+        /\ o' \in OffsetsFor(d)
         /\ r' = PlusM(d, o')
         /\ d' = d
 Spec == Init /\ [][Next]_vars
@@ -98,8 +106,8 @@ ResultWellFormed == WellFormed(r)
 
 \* day numbers and dates are inverse to each other (both directions)
 DayNumInverse == /\ DateOfDay(DayNum(r)) = <<Yr(r), Mon(r), Day(r)>>
-                 /\ DayNum3(DateOfDay(DayNum(d) + o[3])[1], DateOfDay(DayNum(d) + o[3])[2],
-                            DateOfDay(DayNum(d) + o[3])[3]) = DayNum(d) + o[3]
+                 /\ \A n \in {DayNum(d) + o[3] + o[6]} :           \* some day number
+                       \A t \in {DateOfDay(n)} : DayNum3(t[1], t[2], t[3]) = n /\ WellFormed(t \o <<0, 0, 0, 0>>)
 
 \* Plus(days: n) followed by MinusDays gives n, the time of day is kept
 DaysRoundTrip == OnlyField(3) =>
@@ -139,11 +147,10 @@ OrderChronological ==
 JulianAgrees == JDay(r) - JDay(d) = DayNum(r) - DayNum(d)
 
 \* the literal text of a date denotes that date (String, then DateFromLiteral)
-LiteralRoundTrip == /\ LitShape(Literal(r)) /\ LitFields(Literal(r)) = r
-                    /\ LitShape(Literal(d)) /\ LitFields(Literal(d)) = d
+LiteralRoundTrip == \A lit \in {Literal(r)} : LitShape(lit) /\ LitFields(lit) = r
 
 \* a few fixed points, so that the whole model is not consistently shifted
-Anchors ==
+ASSUME
     /\ DayNum(<<1700, 1, 1, 0, 0, 0, 0>>) = 0
     /\ DayNum(<<1970, 1, 1, 0, 0, 0, 0>>) = 98615
     /\ DayNum(<<2000, 3, 1, 0, 0, 0, 0>>) - DayNum(<<2000, 2, 28, 0, 0, 0, 0>>) = 2
